@@ -2110,14 +2110,17 @@ func (p *produceRequest) idempotent() bool { return p.producerID >= 0 }
 func (p *produceRequest) tryAddBatch(produceVersion int32, recBuf *recBuf, batch *recBatch) bool {
 	batchWireLength, flexible, topicIDs := batch.wireLengthForProduceVersion(produceVersion)
 	batchWireLength += 4 // int32 partition prefix
+	if flexible {
+		batchWireLength++ // the partition's empty tagged fields
+	}
 
 	if partitions, exists := p.batches.bs[recBuf.topic]; !exists {
 		if topicIDs {
-			batchWireLength += 16 + 1 // topic ID size, compact array len for 1 item (if we are using topic IDs, we are definitely flexible)
+			batchWireLength += 16 + 1 + 1 // topic ID size, compact array len for 1 item, the topic's empty tagged fields (if we are using topic IDs, we are definitely flexible)
 		} else {
 			lt := int32(len(recBuf.topic))
 			if flexible {
-				batchWireLength += uvarlen(len(recBuf.topic)) + lt + 1 // compact string len, topic, compact array len for 1 item
+				batchWireLength += uvarlen(len(recBuf.topic)) + lt + 1 + 1 // compact string len, topic, compact array len for 1 item, the topic's empty tagged fields
 			} else {
 				batchWireLength += 2 + lt + 4 // string len, topic, partition array len
 			}
